@@ -210,4 +210,70 @@ theorem reach_einv {c : Cfg} {e : Env} {w : CW} (h : Reach c e w) : EInv w.stale
   | init => exact ⟨by simp, by simp, by simp, by simp, by simp, by simp⟩
   | step w o _ ih => exact einv_step c e w o ih
 
+/-- no move of the component or of an honest neighbour ever increases the world measure -/
+theorem wmu_monotone (c : Cfg) (e : Env) (w : CW) (o : HOp) (ho : o.internal = true) :
+    wmu (hstep c e w o) ≤ wmu w := by
+  cases o with
+  | access pid va pl => simp [HOp.internal] at ho
+  | flush => simp [HOp.internal] at ho
+  | restart => simp [HOp.internal] at ho
+  | tick =>
+    simp only [hstep]
+    split
+    · have := (tick_sdec c w.s).1
+      simp only [wmu]; omega
+    · exact Nat.le_refl _
+  | ansT j =>
+    simp only [hstep]
+    split
+    · exact Nat.le_refl _
+    · rename_i q0 qs hq
+      split
+      · rename_i hlt
+        have hne : 0 < w.envT.length := by rw [hq]; simp
+        have := length_removeNth w.envT (j % w.envT.length) (Nat.mod_lt _ hne)
+        simp only [wmu, smu, mu, step, hlt, if_true, List.length_append, List.length_singleton]
+        omega
+      · exact Nat.le_refl _
+  | ansM j =>
+    simp only [hstep]
+    split
+    · exact Nat.le_refl _
+    · rename_i q0 qs hq
+      split
+      · rename_i hlt
+        have hne : 0 < w.envM.length := by rw [hq]; simp
+        have := length_removeNth w.envM (j % w.envM.length) (Nat.mod_lt _ hne)
+        simp only [wmu, smu, mu, step, hlt, if_true, List.length_append, List.length_singleton]
+        omega
+      · exact Nat.le_refl _
+  | drainTop =>
+    by_cases h : w.s.topOut = []
+    · simp [hstep, h]
+    · exact Nat.le_of_lt (prod_drainTop c e w h).2
+  | drainBot =>
+    by_cases h : w.s.botOut = []
+    · simp [hstep, h]
+    · exact Nat.le_of_lt (prod_drainBot c e w h).2
+  | drainTr =>
+    by_cases h : w.s.trOut = []
+    · simp [hstep, h]
+    · exact Nat.le_of_lt (prod_drainTr c e w h).2
+  | drainCtl =>
+    by_cases h : 0 < w.s.ctlOut
+    · exact Nat.le_of_lt (prod_drainCtl c e w h).2
+    · simp [hstep, h]
+
+theorem wmu_monotone_run (c : Cfg) (e : Env) : ∀ (os : List HOp) (w : CW), (∀ o ∈ os, o.internal = true) →
+    wmu (hrun c e w os) ≤ wmu w := by
+  intro os
+  induction os with
+  | nil => intro w _; exact Nat.le_refl _
+  | cons o os ih =>
+    intro w h
+    have h1 := wmu_monotone c e w o (h o (List.mem_cons_self ..))
+    have h2 := ih (hstep c e w o) (fun o' ho' => h o' (List.mem_cons_of_mem _ ho'))
+    simp only [hrun, List.foldl_cons] at h2 ⊢
+    omega
+
 end C16
